@@ -13,7 +13,84 @@ type bitAtom struct {
 	bit  int
 }
 
-// bitTest recognises (= ((_ extract k k) base) #b1).
+// chaseBit follows bit `bit` of t through shifts, extensions, extracts, concatenations, masks and
+// ors-with-zero down to the term that really supplies it, so that selector bits of table lookups are
+// identified by the underlying variable bit whatever expression computed the index.
+// Returns (nil, c) when the bit is the constant c.
+func chaseBit(t *Term, bit int) (*Term, int) {
+	for depth := 0; depth < 64; depth++ {
+		switch t.Op {
+		case OpConst:
+			return nil, int(t.Val >> uint(bit) & 1)
+		case OpExtract:
+			t, bit = t.A[0], bit+t.J
+			continue
+		case OpZExt:
+			if bit >= int(t.A[0].Sort) {
+				return nil, 0
+			}
+			t = t.A[0]
+			continue
+		case OpConcat:
+			lw := int(t.A[1].Sort)
+			if bit < lw {
+				t = t.A[1]
+			} else {
+				t, bit = t.A[0], bit-lw
+			}
+			continue
+		case OpShl:
+			if !t.A[1].IsConst() {
+				return t, bit
+			}
+			k := int(t.A[1].Val)
+			if bit < k {
+				return nil, 0
+			}
+			t, bit = t.A[0], bit-k
+			continue
+		case OpLShr:
+			if !t.A[1].IsConst() {
+				return t, bit
+			}
+			k := int(t.A[1].Val)
+			if bit+k >= int(t.Sort) {
+				return nil, 0
+			}
+			t, bit = t.A[0], bit+k
+			continue
+		case OpBAnd:
+			if t.A[1].IsConst() {
+				if t.A[1].Val>>uint(bit)&1 == 0 {
+					return nil, 0
+				}
+				t = t.A[0]
+				continue
+			}
+			return t, bit
+		case OpBOr, OpBXor:
+			a, ab := chaseBit(t.A[0], bit)
+			b, bb := chaseBit(t.A[1], bit)
+			switch {
+			case a == nil && b == nil:
+				if t.Op == OpBOr {
+					return nil, ab | bb
+				}
+				return nil, ab ^ bb
+			case a == nil && ab == 0:
+				return b, bb
+			case b == nil && bb == 0:
+				return a, ab
+			}
+			return t, bit
+		}
+		return t, bit
+	}
+	return t, bit
+}
+
+// bitTest recognises (= ((_ extract k k) base) #b1) and normalises the tested bit with chaseBit.
+// A test of a constant bit is reported with base == nil and bit == the constant.
 func bitTest(c *Term) (bitAtom, bool) {
 	if c.Op != OpEq {
 		return bitAtom{}, false
@@ -26,7 +103,8 @@ func bitTest(c *Term) (bitAtom, bool) {
 		return bitAtom{}, false
 	}
 	if a.Op == OpExtract && a.I == a.J {
-		return bitAtom{a.A[0], a.I}, true
+		base, bit := chaseBit(a.A[0], a.I)
+		return bitAtom{base, bit}, true
 	}
 	if a.Sort == 1 && a.Op == OpVar {
 		return bitAtom{a, 0}, true
@@ -52,7 +130,7 @@ func constTreeAtoms(t *Term, atoms *[]bitAtom, seenAtom map[bitAtom]bool, seen m
 	if !ok {
 		return false
 	}
-	if !seenAtom[at] {
+	if at.base != nil && !seenAtom[at] {
 		seenAtom[at] = true
 		*atoms = append(*atoms, at)
 		if len(*atoms) > 8 {
@@ -65,7 +143,7 @@ func constTreeAtoms(t *Term, atoms *[]bitAtom, seenAtom map[bitAtom]bool, seen m
 func evalTree(t *Term, assign map[bitAtom]bool) uint64 {
 	for !t.IsConst() {
 		at, _ := bitTest(t.A[0])
-		if assign[at] {
+		if (at.base == nil && at.bit == 1) || (at.base != nil && assign[at]) {
 			t = t.A[1]
 		} else {
 			t = t.A[2]
@@ -85,7 +163,8 @@ func (tb *Table) treeTable(t *Term) (atoms []bitAtom, table []uint64, ok bool) {
 		return nil, nil, false
 	}
 	if len(atoms) == 0 {
-		return nil, nil, false
+		// every test was on a constant bit: the tree is a constant
+		return nil, []uint64{evalTree(t, nil)}, true
 	}
 	// canonical order: a mux is built most-significant bit first, but sharing can perturb the visit
 	// order; order atoms of one base by descending bit, bases by first appearance
@@ -134,6 +213,9 @@ func (tb *Table) MapTree(t *Term, rs Sort, f func(v uint64) *Term) (*Term, bool)
 // buildTree builds the canonical mux over the given atoms (most significant first).
 func (tb *Table) buildTree(atoms []bitAtom, leaves []*Term, allConst bool, rs Sort) *Term {
 	n := len(atoms)
+	if n == 0 {
+		return leaves[0]
+	}
 	if allConst && rs != Bool && int(rs) >= n {
 		// identity (possibly plus a constant offset k: leaf = v + k)?
 		ident := true
